@@ -201,7 +201,7 @@ class ProvXMLSerializer(Serializer):
                         # already declared in the XSD and PROV XML also does
                         # not specify it in the docs.
                         if (
-                            attr.namespace.prefix != "prov"
+                            attr.namespace.uri != PROV.uri
                             or "time" not in attr.localpart.lower()
                         ):
                             xsd_type = XSD_DATETIME
